@@ -41,7 +41,7 @@ ANCHORS = ["txtorcon.torcontrolprotocol:parse_keywords", "txtorcon.torcontrolpro
            "txtorcon.torcontrolprotocol:TorControlProtocol.get_conf",
            "txtorcon.torcontrolprotocol:TorControlProtocol.get_conf_single",
            "txtorcon.torcontrolprotocol:TorControlProtocol._accumulate_multi_response"]
-FLOORS = {"quick": {"evaluations": 3000, "results_compared": 3000, "earlier_calls_on_same_connection": 800, "results_of_calls_outstanding_together": 1000, "earlier_call_cancelled_while_in_flight": 80, "replies_with_several_keys_and_data_blocks": 150, "long_value_cases": 12, "reach:txtorcon.torcontrolprotocol:parse_keywords": 3000},
+FLOORS = {"quick": {"evaluations": 3000, "results_compared": 3000, "earlier_calls_on_same_connection": 800, "results_of_calls_outstanding_together": 1000, "earlier_call_cancelled_while_in_flight": 80, "calls_made_while_a_multiline_event_was_half_received": 100, "replies_with_several_keys_and_data_blocks": 150, "long_value_cases": 12, "reach:txtorcon.torcontrolprotocol:parse_keywords": 3000},
           "thorough": {"evaluations": 40000, "results_compared": 40000}}
 
 ALPHA = ["a", "=", " ", '"', "'", "2", "5", "0", ".", "O", "K"]
@@ -148,6 +148,20 @@ def call(s, api, keys, reply, cmdline, event=None):
         data = R.encode_event(event["name"], event["form"], event["text"], event.get("more", ()))
         s.out += data
         s.items.append(("event", -1, data.count(b"\r\n")))
+        if event.get("partial"):
+            # the first line(s) of a multi-line event have already arrived when the application
+            # makes the call; the rest of the event and then the reply follow
+            ends = [i + 2 for i in range(len(data)) if data.startswith(b"\r\n", i)][:-1]
+            cut = ends[event["partial"] % len(ends)] if ends else 0
+            if cut:
+                chunk = s.out[s.delivered:s.delivered + cut]
+                s.chunks.append((s.delivered, s.delivered + cut))
+                s.delivered += cut
+                s.chunk_no += 1
+                try:
+                    s.proto.dataReceived(chunk)
+                except Exception as e:
+                    s.exceptions.append(("deliver", s.chunk_no, repr(e)))
     try:
         d = getattr(s.proto, api)(*keys)
     except Exception as e:
@@ -504,6 +518,9 @@ def run_shard(spec, rec):
                                  "more": [] if form == "single" else
                                  [rnd.choice(["SocksPort=9999", "Log=notice", "k=v", "x"]) for _ in range(rnd.randint(0, 3))]}
                 rec.count("cases_with_event_before_reply")
+                if form != "single" and rnd.random() < 0.5:
+                    case["event"]["partial"] = rnd.randint(1, 4)
+                    rec.count("calls_made_while_a_multiline_event_was_half_received")
             run_case(case, rec, ctx)
             if i < 2:
                 rec.sample(case)
